@@ -45,7 +45,13 @@ pub fn run(seed: u64, count: usize, _thorough: bool, out: &mut Out) {
         let (lo, hi) = p.bounding_box();
         out.case("C14", call("bbox", vec![psx.clone()]), l(vec![pt_sx(lo), pt_sx(hi)]), "prop:bounding-box", n_atoms > 1);
         // chains in contact, cut-offs off the attainable distances
-        let cutoff = rng.range(0, 40) as f64 / 8.0 + 1.0 / 16.0;
+        // (all cut-offs: also zero, negative ones - nothing is closer than that - and ones whose square is not a binary64 number)
+        let cutoff = match rng.below(12) {
+            0 => 0.0,
+            1 => -(rng.range(0, 40) as f64 / 8.0 + 1.0 / 16.0),
+            2 => *rng.pick(&[1e-170, 1e-200, -1e-170, -100.0625]),
+            _ => rng.range(0, 40) as f64 / 8.0 + 1.0 / 16.0,
+        };
         let mut contacts: Vec<(String, Vec<String>)> = p.chains_in_contact(cutoff).into_iter().collect();
         contacts.sort();
         let csx = l(contacts
@@ -126,6 +132,14 @@ pub fn run(seed: u64, count: usize, _thorough: bool, out: &mut Out) {
                     let args = vec![y(which), opt(a.element(), |e| z(e.atomic_number() as i128)), opt(b2.element(), |e| z(e.atomic_number() as i128)), f(d)];
                     out.case("C14", call("overlaps", args), opt(r, b), "prop:overlaps", r.is_some());
                 }
+            }
+        }
+        // arbitrary finite coordinates: some so far out, or so close together, that the squares of their differences are not binary64 numbers
+        if i % 16 == 5 {
+            for (pa, pb) in [((1e200, 0.0, 0.0), (-1e200, 0.0, 0.0)), ((3e160, 4e160, 0.0), (0.0, 0.0, 0.0)), ((1e-170, 0.0, 0.0), (0.0, 0.0, 0.0)), ((0.0, -2e-165, 1e-165), (0.0, 0.0, 0.0))] {
+                let a = Atom::new(false, 1, "", "C", pa.0, pa.1, pa.2, 1.0, 0.0, "C", 0).expect("atom");
+                let b2 = Atom::new(false, 2, "", "C", pb.0, pb.1, pb.2, 1.0, 0.0, "C", 0).expect("atom");
+                out.case("C14", call("dist", vec![pt_sx(pa), pt_sx(pb), f(a.distance(&b2))]), y("ok"), "prop:distance-euclidean", true);
             }
         }
         // wrapped distance inside an orthogonal cell
